@@ -272,6 +272,7 @@ impl Pair {
 
     /// Application write of `n` bytes of the side's pattern
     pub fn write(&mut self, side: usize, n: usize) -> bool {
+        let n = crate::cap(n);
         if self.panic.is_some() {
             return false;
         }
